@@ -21,7 +21,7 @@ from .c01 import FUNCS
 OPS = ['run', 'get_run_func', 'get_jacobian_func', 'get_nodes', 'get_edges', 'get_edge', 'collect_edges',
        'collect_edges_delay', 'get_node_template', 'getitem', 'to_yaml', 'deepcopy', 'update_template',
        'op_update_template', 'op_derive_equations_only', 'update_var_on_copy', 'run_noclear', 'get_run_func_noclear', 'get_jacobian_func_noclear',
-       'derive_then_edit_inherited', 'op_alias', 'derive_then_edit_edge']
+       'derive_then_edit_inherited', 'op_alias', 'derive_then_edit_edge', 'node_derive_then_edit']
 
 
 def first_state(spec):
@@ -118,6 +118,13 @@ def do_op(ct, spec, name, vectorize):
                 c2.update_var(edge_vars=[(e.src, e.tgt, {'weight': 7.75})])
                 if c3 is not None:
                     c3.update_var(edge_vars=[(e.src, e.tgt, {'weight': 8.75})])
+        elif name == 'node_derive_then_edit':
+            # a NodeTemplate derived without new operators, then edited through its public update_var
+            for nn in nodes[:2]:
+                o_ = spec.nodes[nn].ops[0]
+                v_ = next(v for v, (k, _) in spec.ops[o_].vars.items() if k in ('state', 'const'))
+                nt2 = ct.get_node_template(nn).update_template(name='derived_node')
+                nt2.update_var(o_, v_, 4.25)
         elif name == 'op_alias':
             # a renamed / re-described copy of every operator: neither equations nor variables are edited
             for nn in nodes:
